@@ -147,6 +147,11 @@ def exec_op(rt, wl, labs, op):
     if k == "reagent_distribution":
         return wl.reagent_distribution(op["src_rack"], op["ss"], op["se"], op["dst_rack"], op["ds"], op["de"],
                                        volume=dec(op["volume"]), **_kw(rt, op))
+    if k == "set_limits":
+        # the limits are public attributes: a script may tighten or widen them after construction
+        labs[op["lab"]].min_volume = dec(op["min"])
+        labs[op["lab"]].max_volume = dec(op["max"])
+        return None
     if k == "append_raw":
         return wl.append(op["record"])
     if k == "clear":
